@@ -4357,7 +4357,7 @@ void SoPlexBase<R>::_untransformUnbounded(SolRational& sol, bool unbounded)
    }
    // after a stop at a limit or an error the solution was invalidated: there is no tau to look at
    else if(boolParam(SoPlexBase<R>::TESTDUALINF) && sol._isPrimalFeasible
-           && sol._primal[numOrigCols] < _rationalFeastol)
+           && sol._primal[numOrigCols] <= _rationalFeastol)
    {
       const Rational& alpha = sol._dual[numOrigRows];
 
